@@ -154,6 +154,30 @@ func (s *Store) RawSetRef(name string, id Hash) {
 	s.refs[name] = id
 }
 
+// RawDeleteRef removes a ref with no interception.
+func (s *Store) RawDeleteRef(name string) {
+	s.mu.Lock()
+	defer s.mu.Unlock()
+	delete(s.refs, name)
+}
+
+// ImportFrom copies every object of other into s (refs are not touched).
+func (s *Store) ImportFrom(other *Store) {
+	other.mu.Lock()
+	objs := make(map[string]*object, len(other.objects))
+	for k, v := range other.objects {
+		objs[k] = v
+	}
+	other.mu.Unlock()
+	s.mu.Lock()
+	defer s.mu.Unlock()
+	for k, v := range objs {
+		if _, ok := s.objects[k]; !ok {
+			s.objects[k] = v
+		}
+	}
+}
+
 // ---- commit encoding -------------------------------------------------------
 
 func (s *Store) encodeCommit(tree Hash, parents []Hash, message, sig string) ([]byte, []byte) {
